@@ -215,7 +215,9 @@ impl FileSystem {
     pub(crate) async fn prepare_file_write<'a>(&self, path: &'a Path) -> Result<FileWriter<'a>> {
         let tmp_name = format!(".tmp.{}.internal.part", self.tmp_file_counter.fetch_add(1, Ordering::SeqCst));
         let tmp_path = self.resolve_abs_path(tmp_name)?;
-        let file = File::create(&tmp_path).await?;
+        // Created synchronously: `File::create(..).await` runs on the blocking pool and cannot be cancelled,
+        // so a request dropped at that point would leave a file that no `FileWriter` owns yet.
+        let file = File::from_std(std::fs::File::create(&tmp_path)?);
         let writer = BufWriter::new(file);
         Ok(FileWriter {
             tmp_path,
